@@ -805,9 +805,11 @@ func (c *ctx) one(g gInfo, how string, class string) (result, []string) {
 	lines := []string{r.Prop + " " + line}
 	i, err := value(g, how)
 	var res result
+	var before gInfo
 	if err != nil {
 		res = result{err: err.Error()}
 	} else {
+		before = snap(i)
 		res = runHash(i, stdcrypto.SHA1)
 	}
 	r.Line(line, res.obs())
@@ -833,6 +835,9 @@ func (c *ctx) one(g gInfo, how string, class string) (result, []string) {
 		if n := g.size(); len(res.pre) != n {
 			r.Fail("equals-spec", "length", lines, fmt.Sprintf("%d bytes hashed, the items of the info and their separators have %d", len(res.pre), n))
 		}
+	}
+	if err == nil && res.panicked == "" && !strings.HasPrefix(class, "perm-") {
+		c.twice(g, how, i, before, lines, res)
 	}
 	return res, lines
 }
@@ -1137,9 +1142,16 @@ func Run(r *common.Run) error {
 			}
 			c.info(g, "replay", 8)
 			c.entryPoints(g, []byte("ab"))
+			c.concurrentOn(g, 400)
 		}
 		return nil
 	}
+
+	if r.Race() {
+		c.concurrent()
+		return nil
+	}
+	c.concurrent()
 
 	// corpus: the two worked examples of XEP-0115 (§5.2, §5.3) with their published
 	// verification strings, then the minimal witnesses of past failures
